@@ -55,7 +55,7 @@ followups = defs.defmodel.followups
 def unit_derive(args, prefix=(), max_depth=None):
     tier, group = args['tier'], args['group']
     UO, UP, FO, FP = universes(tier)
-    core.set_width(8)
+    core.set_width(10)
     harness.set_kernel_mode('contract')
     eng = defs.Engine()
     D = eng.D
